@@ -223,6 +223,7 @@ func (dc *directoryCache) Get(key string, opts ...Option) (Reader, error) {
 			}, nil
 		}
 
+		verifGetStage(key, 1)
 		// Get data from disk. If the file is already opened, use it.
 		if f, done, ok := dc.fileCache.Get(key); ok {
 			return &reader{
@@ -233,6 +234,7 @@ func (dc *directoryCache) Get(key string, opts ...Option) (Reader, error) {
 				},
 			}, nil
 		}
+		verifGetStage(key, 2)
 	}
 
 	// Open the cache file and read the target region
